@@ -306,7 +306,7 @@ Lemma fq_seek_run ex ffuel r line byte_ r' o : fq_seek ffuel r line byte_ = (r',
 Proof.
   unfold fq_seek. intros H.
   destruct ((0 <=? Z.of_nat (p0 r) + (Z.of_nat byte_ - Z.of_nat (qbyte r)))%Z &&
-            (Z.of_nat (p0 r) + (Z.of_nat byte_ - Z.of_nat (qbyte r)) <? Z.of_nat (length (qbuf r)))%Z).
+            (Z.of_nat (p0 r) + (Z.of_nat byte_ - Z.of_nat (qbyte r)) <? Z.of_nat (length (qbuf r)))%Z && negb (fq_state_eqb (qst r) QNew)).
   { inversion H; subst. apply qRun_eq. reflexivity. }
   destruct (src_seek (qsrc r) byte_) as [s' res] eqn:Es.
   destruct res as [k|].
